@@ -17,7 +17,9 @@ pub fn epochs<S: Bits + Clone>(recs: &[CallRec<S>], ids: &mut HashMap<String, us
         if matches!(r.outcome, Outcome::Panic { .. }) {
             return None; // a panic is C08's business; what follows it is unspecified
         }
-        if let Call::Setup(_) = r.call {
+        // a new epoch begins with every installation and with every re-assignment of the parameters
+        // (from there on the decisions depend on how far the earlier calls got)
+        if matches!(r.call, Call::Setup(_) | Call::SetParams(_)) {
             out.push(Vec::new());
             continue;
         }
